@@ -1298,6 +1298,7 @@ func checkC02(P *Program, r *Result, tier string) {
 		}
 	}
 	tightRulesA(P, r, "TIGHT", spanFns, trun.A)
+	beLoadRule(P, r, "GRAMMAR")
 	// "for any fragmentation of the stream": the stream skippers and decoders rest on the buffered reader handing
 	// them exactly the bytes asked for — the reader rules of C04 are re-run here
 	{
@@ -1688,12 +1689,39 @@ func c02Decoders(P *Program, r *Result) {
 				skip, _ = c.(*ssa.Call)
 			}
 		}
+		// ... possibly through a one-line helper shared by the decoders: h(d, t) = NewSkipDecoderTpl(d).Skip(t, depth)
+		viaHelper := false
+		if skip == nil {
+			for _, c := range callsIn(fn) {
+				h := c.Common().StaticCallee()
+				cc, isCall := c.(*ssa.Call)
+				if !isCall || h == nil || !inRepo(h) || h.Blocks == nil || len(h.Params) != 2 || len(c.Common().Args) != 2 {
+					continue
+				}
+				ret := singleReturn(h)
+				if ret == nil || len(h.Blocks) != 1 || len(ret.Results) != 1 {
+					continue
+				}
+				inner := asCall(ret.Results[0])
+				if inner == nil || inner.Common().StaticCallee() == nil || baseName(inner.Common().StaticCallee()) != "Skip" || !strings.Contains(inner.Common().StaticCallee().String(), "SkipDecoderTpl") {
+					continue
+				}
+				mk := asCall(inner.Common().Args[0])
+				if mk == nil || mk.Common().StaticCallee() == nil || baseName(mk.Common().StaticCallee()) != "NewSkipDecoderTpl" || mk.Common().Args[0] != ssa.Value(h.Params[0]) || inner.Common().Args[1] != ssa.Value(h.Params[1]) {
+					continue
+				}
+				skip, viaHelper = cc, true
+				r.Funcs[shortName(h)] = true
+			}
+		}
 		if !r.require(d.typ+".Next: call of SkipDecoderTpl.Skip", skip != nil) {
 			continue
 		}
 		// the decoder handed to the template is the receiver itself
 		mkOK := false
-		if mk := asCall(skip.Common().Args[0]); mk != nil && mk.Common().StaticCallee() != nil && baseName(mk.Common().StaticCallee()) == "NewSkipDecoderTpl" && mk.Common().Args[0] == ssa.Value(fn.Params[0]) {
+		if viaHelper {
+			mkOK = skip.Common().Args[0] == ssa.Value(fn.Params[0])
+		} else if mk := asCall(skip.Common().Args[0]); mk != nil && mk.Common().StaticCallee() != nil && baseName(mk.Common().StaticCallee()) == "NewSkipDecoderTpl" && mk.Common().Args[0] == ssa.Value(fn.Params[0]) {
 			mkOK = true
 		}
 		r.add("DECODER-BYTES", shortName(fn), "tpl", "the template walks this decoder, with the type asked for", P.pos(instrPos(skip)), mkOK && skip.Common().Args[1] == ssa.Value(fn.Params[1]), "")
@@ -2192,4 +2220,100 @@ func isSizeFunc(fn *ssa.Function) bool {
 		return false
 	}
 	return true
+}
+
+// beLoadRule: the pointer skipper takes every declared size through a
+// one-parameter unsafe loader; the skippers' size rules (NEG32, TIGHT, GRAMMAR)
+// speak about "the 32-bit big-endian word at p", so the loader must be exactly
+// that: the four bytes at p, p+1, p+2, p+3 combined most significant first and
+// reinterpreted at the width and signedness of its result type.
+func beLoadRule(P *Program, r *Result, rule string) {
+	n := 0
+	for _, fn := range repoFuncs(P) {
+		if fnPkgPath(fn) != modPath+"/"+relThrift || len(fn.Params) != 1 || !isUnsafePointer(fn.Params[0].Type()) || fn.Signature.Results().Len() != 1 || !isInteger(fn.Signature.Results().At(0).Type()) {
+			continue
+		}
+		// only loaders the pointer skipper calls
+		used := false
+		for _, g := range repoFuncs(P) {
+			for _, cc := range callsIn(g) {
+				if cc.Common().StaticCallee() == fn {
+					used = true
+				}
+			}
+		}
+		if !used {
+			continue
+		}
+		n++
+		r.Funcs[shortName(fn)] = true
+		ret := singleReturn(fn)
+		if ret == nil {
+			r.add(rule, shortName(fn), "load", "the unsafe loader is the big-endian word at its pointer", P.pos(fn.Pos()), false, "more than one return")
+			continue
+		}
+		c := &lctx{P: P, fn: fn, args: map[*ssa.Parameter]*bx{}}
+		byteAt := func(addr ssa.Value) (int64, bool) {
+			switch q := addr.(type) {
+			case *ssa.Parameter:
+				if q == fn.Params[0] {
+					return 0, true
+				}
+			case *ssa.Call:
+				if bi, isB := q.Common().Value.(*ssa.Builtin); isB && bi.Name() == "Add" && q.Common().Args[0] == ssa.Value(fn.Params[0]) {
+					if k, isC := constInt(q.Common().Args[1]); isC && k >= 0 {
+						return k, true
+					}
+				}
+			}
+			return 0, false
+		}
+		c.leaf = func(v ssa.Value) *bx {
+			ld, ok := v.(*ssa.UnOp)
+			if !ok || ld.Op != token.MUL {
+				return nil
+			}
+			w, sg := typeWidth(ld.Type())
+			if w == 0 || w%8 != 0 {
+				return nil
+			}
+			var off int64
+			switch a := ld.X.(type) {
+			case *ssa.Convert: // *(*T)(p) / *(*T)(unsafe.Add(p, k))
+				if !isUnsafePointer(a.X.Type()) {
+					return nil
+				}
+				k, ok := byteAt(a.X)
+				if !ok {
+					return nil
+				}
+				off = k
+			case *ssa.IndexAddr: // (*[N]T)(p)[i]
+				cv, ok := a.X.(*ssa.Convert)
+				if !ok || !isUnsafePointer(cv.X.Type()) {
+					return nil
+				}
+				k, ok := byteAt(cv.X)
+				i, isC := constInt(a.Index)
+				if !ok || !isC || i < 0 {
+					return nil
+				}
+				off = k + i*int64(w/8)
+			default:
+				return nil
+			}
+			if w != 8 {
+				// a wider native load is little-endian on the supported targets: not a big-endian word
+				return &bx{op: "opaque", s: "native load of " + ld.Type().String()}
+			}
+			p := lpos{c: off}
+			return &bx{op: "be", k: 1, w: 8, signed: sg, p: &p}
+		}
+		e := c.expr(ret.Results[0]).norm()
+		w, sg := typeWidth(fn.Signature.Results().At(0).Type())
+		ok := e.op == "be" && int(e.k)*8 == w && e.w == w && e.p != nil && e.p.c == 0 && len(e.p.syms) == 0 && e.p.bad == ""
+		_ = sg
+		r.add(rule, shortName(fn), "load", fmt.Sprintf("the unsafe loader returns the %d-bit big-endian word at its pointer", w), P.pos(fn.Pos()), ok, "computed: "+e.render())
+	}
+	r.require("an unsafe big-endian loader used by the pointer skipper", n > 0)
 }
